@@ -1113,6 +1113,22 @@ pub open spec fn chains_ok(bs: Seq<ActionExprChain>) -> bool {
                              "join0.handler is Some ==> join.handler == join0.handler",
                          ]}},
                          proof_prologue="let ghost join0 = join;")})
+    # ---- the four option blocks of `<JoinInputDefault as Parse>::parse` (R15 single-statement lifting; `parenthesized!` by R11)
+    u.append(raw("specs_options", _read("specs_options.rs")))
+    OPTS = [("futures_crate_path", 11, "true, false, false, false", "futures_crate_path"), ("custom_joiner", 12, "false, true, false, false", "custom_joiner"),
+            ("transpose_results", 13, "false, false, true, false", "transpose_results"), ("lazy_branches", 14, "false, false, false, true", "lazy_branches")]
+    for kw, kid, frame, field in OPTS:
+        u.append({"kind": "lifted", "file": F_PARSE, "self_ty": "JoinInputDefault", "of_trait": "Parse", "func": "parse",
+                  "stmt_at": "if input.peek(keywords::%s)" % kw, "ret_wrap": "Ok(join)", "header": "impl JoinInputDefault",
+                  "sig": "parse_option_%s<'b>(input: ParseStream<'b>, mut join: JoinInputDefault) -> syn::Result<JoinInputDefault>" % kw,
+                  "spec": fn("parse_option_%s" % kw, "r", label="JoinInputDefault::parse_option_%s" % kw,
+                             ensures=[
+                                 # without the keyword nothing changes; with it only this option's field may change ...
+                                 "r is Ok && !input.peeks(%d) ==> r->Ok_0 == join" % kid,
+                                 "r is Ok ==> opts_frame(join, r->Ok_0, %s)" % frame,
+                                 # ... it is set afterwards, and it was not set before (a second occurrence is an error)
+                                 "r is Ok && input.peeks(%d) ==> r->Ok_0.%s is Some && join.%s is None" % (kid, field, field),
+                             ])})
     return u
 
 
@@ -1358,10 +1374,10 @@ OBLIGATIONS = {
             ("gen", "JoinOutput::generate_def_and_step_streams"), ("gen", "JoinOutput::expand_process_expr"),
             ("core", "ProcessExpr::to_tokens")],
     "C14": [("parse", "ParseUntil::scan_step"), ("parse", "parse_until_suffix"), ("det", "lemma_first_match_is_longest"), ("optable", "lemma_operator_tables")],
-    "C16": [("builder", "JoinInputDefault::parse_branches"), ("top", "generate_join"), ("top", "jo_into_token_stream"), ("top", "ji_futures_crate_path"), ("top", "ji_branches"), ("top", "ji_handler"), ("top", "ji_joiner"), ("top", "ji_transpose_results_option"), ("top", "ji_lazy_branches_option"), ("top", "JoinOutput::new"), ("gen", "JoinOutput::generate_handle"), ("gen", "JoinOutput::generate_step_branch"), ("steps", "JoinOutput::generate_step_tail"), ("guards", "new_init_lazy_branches"), ("guards", "new_init_transpose")],
+    "C16": [("builder", "JoinInputDefault::parse_option_futures_crate_path"), ("builder", "JoinInputDefault::parse_option_custom_joiner"), ("builder", "JoinInputDefault::parse_option_transpose_results"), ("builder", "JoinInputDefault::parse_option_lazy_branches"), ("builder", "JoinInputDefault::parse_branches"), ("top", "generate_join"), ("top", "jo_into_token_stream"), ("top", "ji_futures_crate_path"), ("top", "ji_branches"), ("top", "ji_handler"), ("top", "ji_joiner"), ("top", "ji_transpose_results_option"), ("top", "ji_lazy_branches_option"), ("top", "JoinOutput::new"), ("gen", "JoinOutput::generate_handle"), ("gen", "JoinOutput::generate_step_branch"), ("steps", "JoinOutput::generate_step_tail"), ("guards", "new_init_lazy_branches"), ("guards", "new_init_transpose")],
     "C17": [("sep", "is_block_expr"), ("sep", "JoinOutput::separate_block_expr_process"), ("sep", "JoinOutput::separate_block_expr_err"), ("sep", "JoinOutput::separate_block_expr_initial"), ("sep", "lemma_sep_step")] + [("names", "lemma_names_never_clash"), ("names", "lemma_names_table"), ("names", "lemma_name3_injective"), ("names", "lemma_name1_injective"), ("names", "lemma_distinguishable"), ("names", "lemma_names_strlits"), ("gen", "JoinOutput::generate_def_and_step_streams")] + [("core", n) for n in ['construct_var_name', 'construct_step_results_name', 'construct_result_name', 'construct_thread_builder_name', 'construct_inspect_fn_name', 'construct_spawn_tokio_fn_name', 'construct_results_name', 'construct_handler_name', 'construct_internal_value_name', 'construct_thread_builder_fn_name', 'construct_expr_wrapper_name']],
     "C20": [("core", n) for n in ['construct_var_name', 'construct_step_results_name', 'construct_result_name', 'construct_thread_builder_name', 'construct_inspect_fn_name', 'construct_spawn_tokio_fn_name', 'construct_results_name', 'construct_handler_name', 'construct_internal_value_name', 'construct_thread_builder_fn_name', 'construct_expr_wrapper_name']],
-    "C10": [("sep", "JoinOutput::separate_block_expr_process"), ("sep", "JoinOutput::separate_block_expr_err"), ("sep", "JoinOutput::separate_block_expr_initial"), ("sep", "is_block_expr"), ("sep", "err_is_replaceable"), ("sep", "initial_is_replaceable"), ("sep", "lemma_sep_step"), ("sep", "lemma_defs_empty"), ("sep", "lemma_any_block_upto_step")] + [("core", "ProcessExpr::is_replaceable"), ("core", "ProcessExpr::replace_inner_exprs"), ("core", "ErrExpr::replace_inner_exprs"),
+    "C10": [("builder", "JoinInputDefault::parse_option_futures_crate_path"), ("builder", "JoinInputDefault::parse_option_custom_joiner"), ("builder", "JoinInputDefault::parse_option_transpose_results"), ("builder", "JoinInputDefault::parse_option_lazy_branches"), ("sep", "JoinOutput::separate_block_expr_process"), ("sep", "JoinOutput::separate_block_expr_err"), ("sep", "JoinOutput::separate_block_expr_initial"), ("sep", "is_block_expr"), ("sep", "err_is_replaceable"), ("sep", "initial_is_replaceable"), ("sep", "lemma_sep_step"), ("sep", "lemma_defs_empty"), ("sep", "lemma_any_block_upto_step")] + [("core", "ProcessExpr::is_replaceable"), ("core", "ProcessExpr::replace_inner_exprs"), ("core", "ErrExpr::replace_inner_exprs"),
             ("gen", "JoinOutput::generate_def_and_step_streams"), ("gen", "JoinOutput::wrap_last_step_stream")],
     "C11": [("sep", "JoinOutput::separate_block_expr_process"), ("sep", "JoinOutput::separate_block_expr_err"), ("sep", "JoinOutput::separate_block_expr_initial"), ("sep", "is_block_expr"), ("sep", "err_is_replaceable"), ("sep", "initial_is_replaceable"), ("sep", "lemma_sep_step"), ("sep", "lemma_defs_empty"), ("sep", "lemma_any_block_upto_step")] + [("core", "ProcessExpr::is_replaceable"), ("core", "ProcessExpr::inner_exprs"),
             ("core", "ProcessExpr::replace_inner_exprs"), ("core", "ErrExpr::inner_exprs"),
